@@ -36,7 +36,7 @@ q=$(VERIF_REPO=$scratch timeout 900 ./bin/vcheck run --property $prop --tier qui
 echo "QUICK: $q"
 caught=quick
 if ! echo "$q" | grep -q "^VIOLATION"; then
-  t=$(VERIF_REPO=$scratch timeout 1800 ./bin/vcheck run --property $prop --tier thorough --no-evidence 2>&1 | grep "^VIOLATION\|^  obligation\|^INCONCLUSIVE\|exit=" | cut -c1-260)
+  t=$(VERIF_REPO=$scratch timeout 1200 ./bin/vcheck run --property $prop --tier thorough --no-evidence 2>&1 | grep "^VIOLATION\|^  obligation\|^INCONCLUSIVE\|exit=" | cut -c1-260)
   echo "THOROUGH: $t"
   caught=thorough
   echo "$t" | grep -q "^VIOLATION" || caught=missed
